@@ -63,6 +63,15 @@ def record_updates(solver, keep_arrays=False, before=None):
     ``before(call_index, state)`` may raise to inject a stop at the entry of a call."""
     hist = History(keep_arrays)
     orig = solver.update
+    # number of calls of the documented get_induced_vector_potential during each update (= screening iterations made)
+    counter = [0]
+    orig_giv = solver.get_induced_vector_potential
+
+    def giv(*a, **kw):
+        counter[0] += 1
+        return orig_giv(*a, **kw)
+
+    solver.get_induced_vector_potential = giv
 
     def update(state, running_state, dt, **kw):
         idx = len(hist.calls)
@@ -70,6 +79,7 @@ def record_updates(solver, keep_arrays=False, before=None):
             before(idx, dict(state))
         rec = dict(step=int(state["step"]), time=float(state["time"]), dt_in=float(dt),
                    rs_step=int(running_state.step))
+        counter[0] = 0
         try:
             out = orig(state, running_state, dt, **kw)
         except BaseException as exc:  # noqa: BLE001
@@ -77,6 +87,7 @@ def record_updates(solver, keep_arrays=False, before=None):
             hist.calls.append(rec)
             raise
         rec["dt"] = float(out.dt)
+        rec["screening_calls"] = counter[0]
         rec["digest"] = orc.digest(out.psi, out.mu, out.supercurrent, out.normal_current, out.A_induced)
         rec["in_digest"] = orc.digest(kw["psi"], kw["mu"], kw["supercurrent"], kw["normal_current"],
                                       kw["induced_vector_potential"])
